@@ -59,6 +59,9 @@ def hazard(T, S):
 DATA = ["mixed", "neg", "pos", "negline", "const", "zero", "pow2", "wide"]
 
 
+CLASS_BOUND = {"mixed": 4, "neg": 4, "pos": 4, "negline": 4, "const": 4, "zero": 1, "pow2": 4, "wide": 9}
+
+
 def fill(dr, cls, n1, n2):
     """n1*n2 values (logical row-major) of a data class"""
     n = n1 * n2
@@ -120,7 +123,9 @@ class Dir(Gen):
                 vals = fill(self.dr, cls, v.shape[0], v.shape[1])
                 ops.append(f"mat {v.kind} {v.shape[0]} {v.shape[1]} " + " ".join(map(str, vals)))
             v.values = vals
-            v.bound, v.dexp = max([abs(x) for x in vals] + [1]), 0
+            # the bound of the data CLASS, not of the drawn values: which statements pass the magnitude check (the
+            # structure of the program, hence the cached object files) must not depend on the seed
+            v.bound, v.dexp = max([abs(x) for x in vals] + [CLASS_BOUND.get(cls, 4)]), 0
         return [o.strip() for o in ops]
 
     def skip(self, why):
@@ -468,36 +473,45 @@ class Dir(Gen):
         return cases
 
     def fam_alias_products(self):
-        """block-wise right-hand sides that read the target (the temporary is mandatory)"""
+        """block-wise right-hand sides that read the target (the temporary is mandatory).  Every expression node is
+        built when its statement is emitted (magnitudes of the operands are the current ones) and the store is
+        re-initialised every three statements, so that the values stay inside the exact range of double"""
         cases = []
         for kind in ("A", "B"):
-            self.setup([4, 4], [(4, 4), (4, 4)] if kind == "A" else [(4, 4)], [(4, 4), (4, 4)] if kind == "B" else [(4, 4)])
-            init = self.init_ops({"*": "mixed"})
-            stmts = []
-            M, M1 = self.p_var(self.V(kind, 0)), self.p_var(self.V(kind, 1))
-            O = self.p_var(self.V("B" if kind == "A" else "A", 0))
-            v = self.p_var(self.V("v", 0))
+            other = "B" if kind == "A" else "A"
+            lay = lambda: self.setup([4, 4], [(4, 4), (4, 4)] if kind == "A" else [(4, 4)],
+                                     [(4, 4), (4, 4)] if kind == "B" else [(4, 4)])
+            P = lambda kd, k: self.p_var(self.V(kd, k))
+            M, M1, O, v = (lambda: P(kind, 0)), (lambda: P(kind, 1)), (lambda: P(other, 0)), (lambda: P("v", 0))
             todo = [
-                ("set", v, lambda: self.mk_mv(M.e, v.e)),
-                ("plus", v, lambda: self.mk_vm(v.e, M.e)),
-                ("set", M, lambda: self.mk_mm(M.e, M1.e)),
-                ("set", M, lambda: self.mk_mm(M1.e, self.mk_trans(M.e))),
-                ("minus", M, lambda: self.mk_mm(O.e, M.e)),
-                ("set", self.p_row(M, 1), lambda: self.mk_mv(M.e, self.p_col(M, 2).e)),
-                ("set", self.p_col(M, 0), lambda: self.mk_vm(self.p_row(M, 3).e, M.e)),
-                ("plus", self.p_diag(M), lambda: self.mk_fold("max", False, M.e)),
-                ("set", self.p_row(M, 0), lambda: self.mk_fold("min", True, M.e)),
-                ("set", M, lambda: self.mk_outer(self.p_col(M, 1).e, self.p_row(M, 2).e)),
-                ("set", M, lambda: self.mk_trans(M.e)),
-                ("plus", M, lambda: self.mk_trans(M.e)),
-                ("set", self.p_mrange(M, 0, 3, 0, 3), lambda: self.mk_mm(self.p_mrange(M, 1, 4, 1, 4).e, self.p_mrange(M1, 0, 3, 1, 4).e)),
+                ("set", v, lambda: self.mk_mv(M().e, v().e)),
+                ("plus", v, lambda: self.mk_vm(v().e, M().e)),
+                ("set", M, lambda: self.mk_mm(M().e, M1().e)),
+                ("set", M, lambda: self.mk_mm(M1().e, self.mk_trans(M().e))),
+                ("minus", M, lambda: self.mk_mm(O().e, M().e)),
+                ("set", lambda: self.p_row(M(), 1), lambda: self.mk_mv(M().e, self.p_col(M(), 2).e)),
+                ("set", lambda: self.p_col(M(), 0), lambda: self.mk_vm(self.p_row(M(), 3).e, M().e)),
+                ("plus", lambda: self.p_diag(M()), lambda: self.mk_fold("max", False, M().e)),
+                ("set", lambda: self.p_row(M(), 0), lambda: self.mk_fold("min", True, M().e)),
+                ("set", M, lambda: self.mk_outer(self.p_col(M(), 1).e, self.p_row(M(), 2).e)),
+                ("set", M, lambda: self.mk_trans(M().e)),
+                ("plus", M, lambda: self.mk_trans(M().e)),
+                ("set", lambda: self.p_mrange(M(), 0, 3, 0, 3),
+                 lambda: self.mk_mm(self.p_mrange(M(), 1, 4, 1, 4).e, self.p_mrange(M1(), 0, 3, 1, 4).e)),
             ]
+            lay()
+            init, stmts = self.init_ops({"*": "mixed"}), []
             for form, T, mk in todo:
                 try:
-                    self.emit(stmts, form, T, mk(), "alias-blockwise")
+                    self.emit(stmts, form, T(), mk(), "alias-blockwise")
                 except Unsupported as u:
                     self.skip(u)
-            cases.append((init, stmts))
+                if len(stmts) >= 3:
+                    cases.append((init, stmts))
+                    lay()
+                    init, stmts = self.init_ops({"*": "mixed"}), []
+            if stmts:
+                cases.append((init, stmts))
         return cases
 
     def family_alias(self, quick):
